@@ -329,6 +329,37 @@ def make_machine(stats):
             if any(a is not b_ for a, b_ in zip(before, self.triple())):
                 self.fail("guard state after a loop containing an _if with a _breakif is not the state before it")
 
+        @rule(c=st.integers(0, 1), kind=st.sampled_from(["pub0", "pub22", "max0", "stop0", "pub1"]))
+        def short_loop_inside_if(self, c, kind):
+            """a for loop that runs zero times (or once) inside an open _if on the same context: after _endfor the guard is the
+            if's again, after _endif the state is the one before"""
+            self.hist.append(["short_loop_inside_if", c, kind])
+            before = self.triple()
+            ns, rt, br = self.ns, self.rt, self.ns.br
+            ctx = br.BranchingValues()
+            ctx.x = rt.PrivVal(1)
+            br._if(ns.bo.PrivValBool(c), ctx)
+            try:
+                self.check_inside([c])
+                rng = {"pub0": lambda: br._range(0, ctx=ctx), "pub22": lambda: br._range(2, 2, ctx=ctx),
+                       "max0": lambda: br._range(rt.PrivVal(0), max=0, ctx=ctx), "stop0": lambda: br._range(rt.PrivVal(0), max=2, ctx=ctx),
+                       "pub1": lambda: br._range(1, ctx=ctx)}[kind]()
+                for i in rng:
+                    alive = {"max0": 0, "stop0": 0, "pub1": 1}.get(kind, 1)
+                    self.check_inside([c] + ([alive] if kind != "pub1" else []))
+                    ctx.x = ctx.x + 1
+                br._endfor(ctx)
+                self.check_inside([c])
+                br._endif(ctx)
+            finally:
+                while ctx.stack:
+                    try:
+                        ctx.stack.pop().end()
+                    except Exception:
+                        pass
+            if any(a is not b_ for a, b_ in zip(before, self.triple())):
+                self.fail("guard state after an _if containing a short loop (%s) is not the state before it" % kind)
+
         # -- invariant
         def check_inside(self, extra):
             rt = self.rt
@@ -467,6 +498,8 @@ def replay(case):
                 m.reenter(*h[1:])
             elif h[0] == "break_inside_if":
                 m.break_inside_if(*h[1:])
+            elif h[0] == "short_loop_inside_if":
+                m.short_loop_inside_if(*h[1:])
             m.hist.pop()     # the rule appended it again
             m.hist.append(h)
             m.check_inside([])
